@@ -2,4 +2,463 @@
 
 package main
 
-func requestsMain(args []string) {}
+// C33: requests signed with 1-3 layers in all schemes (ECDSA SHA-512 / RFC6979 / WalletConnect,
+// N3 witnesses against a witness oracle), legacy (API < 2.25: chained origin signatures) and
+// current API versions, then mutated on the wire message: flipped bytes in body / meta header /
+// verification header, dropped / reordered layers, swapped or removed signatures, scheme or key
+// substitution, TTL and peer-authentication variations.  The facts of the model (which signature
+// is present / valid over exactly which message) are re-derived from the FINAL message with the
+// SDK's single-signature verification; the verdicts come from the real
+// icrypto.VerifyRequestSignatures / ...WithContext / ...N3.
+
+import (
+	"context"
+	"crypto/sha256"
+	"encoding/json"
+	"errors"
+	"os"
+	"slices"
+	"strconv"
+
+	"github.com/nspcc-dev/neo-go/pkg/crypto/hash"
+	"github.com/nspcc-dev/neo-go/pkg/crypto/keys"
+	"github.com/nspcc-dev/neo-go/pkg/util"
+	icrypto "github.com/nspcc-dev/neofs-node/internal/crypto"
+	"github.com/nspcc-dev/neofs-node/pkg/network/peerauth"
+	apistatus "github.com/nspcc-dev/neofs-sdk-go/client/status"
+	neofscrypto "github.com/nspcc-dev/neofs-sdk-go/crypto"
+	protoobject "github.com/nspcc-dev/neofs-sdk-go/proto/object"
+	"github.com/nspcc-dev/neofs-sdk-go/proto/refs"
+	protosession "github.com/nspcc-dev/neofs-sdk-go/proto/session"
+	"github.com/nspcc-dev/neofs-sdk-go/user"
+	"google.golang.org/grpc/credentials"
+	"google.golang.org/grpc/peer"
+	"google.golang.org/protobuf/proto"
+)
+
+type layerF struct {
+	HasBody   bool `json:"has_body"`
+	BodyOK    bool `json:"body_ok"`
+	HasMeta   bool `json:"has_meta"`
+	MetaOK    bool `json:"meta_ok"`
+	HasOrigin bool `json:"has_origin"`
+	OriginOK  bool `json:"origin_ok"`
+}
+type reqCase struct {
+	HasVH    bool     `json:"has_vh"`
+	Layers   []layerF `json:"layers"`    // N3 witnesses unsupported (VerifyRequestSignatures / WithContext)
+	LayersN3 []layerF `json:"layers_n3"` // N3 witnesses verified by the chain (VerifyRequestSignaturesN3)
+	HasMeta  bool     `json:"has_meta"`
+	NMeta    int      `json:"nmeta"`
+	HasVer   bool     `json:"has_ver"`
+	Major    uint32   `json:"major"`
+	Minor    uint32   `json:"minor"`
+	TTL      uint32   `json:"ttl"`
+	Trusted  bool     `json:"trusted"`
+	Peer     string   `json:"peer"` // none | trusted | other_auth | no_auth
+	Mut      string   `json:"mut"`
+	Base     bool     `json:"base"` // the unmutated request was accepted by all three entry points
+	NLayers  int      `json:"nlayers"`
+	Schemes  []int    `json:"schemes"`
+	// observed: accepted by VerifyRequestSignatures / WithContext / N3 ; status class of a refusal
+	Plain  bool `json:"plain"`
+	Ctx    bool `json:"ctx"`
+	N3     bool `json:"n3"`
+	SigErr bool `json:"sig_err"` // every refusal is a SignatureVerification status
+	// GetRequestAuthor on the verification header: 0 ok, 1 error ; key equals the outer body signature key
+	AuthorErr   bool `json:"author_err"`
+	AuthorIsKey bool `json:"author_is_key"`
+}
+
+// N3 "signer": the signature value is the invocation script, the key the verification script;
+// signing registers the witness for exactly (account of the verification script, signed data).
+type n3pub struct{ verif []byte }
+
+func (p n3pub) MaxEncodedSize() int      { return len(p.verif) }
+func (p n3pub) Encode(buf []byte) int    { return copy(buf, p.verif) }
+func (p *n3pub) Decode(b []byte) error   { p.verif = slices.Clone(b); return nil }
+func (p n3pub) Verify(_, _ []byte) bool  { return false }
+
+type n3signer struct {
+	w     *tworld
+	invoc []byte
+	verif []byte
+}
+
+func (s n3signer) Scheme() neofscrypto.Scheme { return neofscrypto.N3 }
+func (s n3signer) Public() neofscrypto.PublicKey { return &n3pub{s.verif} }
+func (s n3signer) Sign(data []byte) ([]byte, error) {
+	s.w.n3reg[n3Key(hash.Hash160(s.verif), sha256.Sum256(data), slices.Concat(s.invoc, s.verif))] = true
+	return slices.Clone(s.invoc), nil
+}
+
+type pmsg interface {
+	MarshaledSize() int
+	MarshalStable([]byte)
+}
+
+func enc(m pmsg) []byte {
+	b := make([]byte, m.MarshaledSize())
+	m.MarshalStable(b)
+	return b
+}
+
+// one signature over one message: (valid without N3 support, valid with the chain verifying N3)
+func sigFacts(w *tworld, s *refs.Signature, m pmsg) (bool, bool) {
+	if s == nil {
+		return false, false
+	}
+	if s.Scheme == refs.SignatureScheme_N3 {
+		ok := w.n3reg[n3Key(hash.Hash160(s.Key), sha256.Sum256(enc(m)), slices.Concat(s.Sign, s.Key))]
+		return false, ok
+	}
+	ok := neofscrypto.VerifyMessageSignature(m, s, nil) == nil
+	return ok, ok
+}
+
+func requestFacts(w *tworld, req *protoobject.DeleteRequest, c *reqCase) {
+	v, m := req.VerifyHeader, req.MetaHeader
+	c.HasVH = v != nil
+	c.HasMeta = m != nil
+	c.NMeta = 1
+	for o := m.GetOrigin(); o != nil; o = o.GetOrigin() {
+		c.NMeta++
+	}
+	if m != nil && m.Version != nil {
+		c.HasVer, c.Major, c.Minor = true, m.Version.Major, m.Version.Minor
+	}
+	c.TTL = m.GetTtl()
+	c.Layers, c.LayersN3 = []layerF{}, []layerF{}
+	mm := m
+	for ; v != nil && len(c.Layers) < 12; v = v.Origin {
+		var a, b layerF
+		a.HasBody, a.HasMeta, a.HasOrigin = v.BodySignature != nil, v.MetaSignature != nil, v.OriginSignature != nil
+		b = a
+		a.BodyOK, b.BodyOK = sigFacts(w, v.BodySignature, req.Body)
+		a.MetaOK, b.MetaOK = sigFacts(w, v.MetaSignature, mm)
+		a.OriginOK, b.OriginOK = sigFacts(w, v.OriginSignature, v.Origin)
+		c.Layers = append(c.Layers, a)
+		c.LayersN3 = append(c.LayersN3, b)
+		mm = mm.GetOrigin()
+	}
+}
+
+var errPanic = errors.New("panic")
+
+func asStatus(err error, target *apistatus.SignatureVerification) bool { return errors.As(err, target) }
+
+type otherAuth struct{ credentials.CommonAuthInfo }
+
+func (otherAuth) AuthType() string { return "other" }
+
+func peerCtx(kind string, a *actor) context.Context {
+	ctx := context.Background()
+	switch kind {
+	case "trusted":
+		pk := a.key.PublicKey
+		return peer.NewContext(ctx, &peer.Peer{AuthInfo: peerauth.AuthInfo{PublicKey: (*keys.PublicKey)(&pk)}})
+	case "other_auth":
+		return peer.NewContext(ctx, &peer.Peer{AuthInfo: otherAuth{}})
+	case "no_auth":
+		return peer.NewContext(ctx, &peer.Peer{})
+	}
+	return ctx
+}
+
+var reqMuts = []string{"body_byte", "meta_ttl", "meta_xhdr", "meta_origin", "sig_val", "sig_key", "sig_scheme", "drop_outer", "drop_inner", "drop_meta_layer",
+	"swap_body_meta", "swap_meta_layers", "swap_origin_meta", "no_body_sig", "no_meta_sig", "no_origin_sig", "reorder_layers", "extra_body_sig", "wire_byte", "no_vh", "body_nil"}
+
+func pickSig(g *rng, v *protosession.RequestVerificationHeader) *refs.Signature {
+	var all []*refs.Signature
+	for ; v != nil; v = v.Origin {
+		for _, s := range []*refs.Signature{v.BodySignature, v.MetaSignature, v.OriginSignature} {
+			if s != nil {
+				all = append(all, s)
+			}
+		}
+	}
+	if len(all) == 0 {
+		return nil
+	}
+	return pick(g, all)
+}
+
+func mutateReq(g *rng, u *tuniverse, req *protoobject.DeleteRequest, how string) *protoobject.DeleteRequest {
+	v := req.VerifyHeader
+	switch how {
+	case "body_byte":
+		if req.Body != nil {
+			val := req.Body.Address.ObjectId.Value
+			val[g.n(len(val))] ^= 1 << uint(g.n(8))
+		}
+	case "meta_ttl":
+		if req.MetaHeader != nil {
+			req.MetaHeader.Ttl++
+		}
+	case "meta_xhdr":
+		if req.MetaHeader != nil {
+			req.MetaHeader.XHeaders = append(req.MetaHeader.XHeaders, &protosession.XHeader{Key: "k", Value: "v"})
+		}
+	case "meta_origin":
+		if o := req.MetaHeader.GetOrigin(); o != nil {
+			o.Ttl++
+		} else if req.MetaHeader != nil {
+			req.MetaHeader.Epoch++
+		}
+	case "sig_val":
+		if s := pickSig(g, v); s != nil && len(s.Sign) > 0 {
+			s.Sign = slices.Clone(s.Sign)
+			s.Sign[g.n(len(s.Sign))] ^= 1 << uint(g.n(8))
+		}
+	case "sig_key":
+		if s := pickSig(g, v); s != nil {
+			for _, a := range u.actors[1:] {
+				if string(a.pub) != string(s.Key) {
+					s.Key = slices.Clone(a.pub)
+					break
+				}
+			}
+		}
+	case "sig_scheme":
+		if s := pickSig(g, v); s != nil {
+			s.Scheme = refs.SignatureScheme((int(s.Scheme) + 1 + g.n(3)) % 5)
+		}
+	case "drop_outer":
+		if v != nil {
+			req.VerifyHeader = v.Origin
+		}
+	case "drop_inner":
+		if v != nil && v.Origin != nil {
+			v.Origin = v.Origin.Origin
+		}
+	case "drop_meta_layer":
+		if req.MetaHeader != nil && req.MetaHeader.Origin != nil {
+			req.MetaHeader.Origin = req.MetaHeader.Origin.Origin
+		}
+	case "swap_body_meta":
+		for x := v; x != nil; x = x.Origin {
+			if x.BodySignature != nil {
+				x.BodySignature, x.MetaSignature = x.MetaSignature, x.BodySignature
+			}
+		}
+	case "swap_meta_layers":
+		if v != nil && v.Origin != nil {
+			v.MetaSignature, v.Origin.MetaSignature = v.Origin.MetaSignature, v.MetaSignature
+		}
+	case "swap_origin_meta":
+		if v != nil {
+			v.MetaSignature, v.OriginSignature = v.OriginSignature, v.MetaSignature
+		}
+	case "no_body_sig":
+		for x := v; x != nil; x = x.Origin {
+			x.BodySignature = nil
+		}
+	case "no_meta_sig":
+		if v != nil {
+			x := v
+			for k := g.n(3); k > 0 && x.Origin != nil; k-- {
+				x = x.Origin
+			}
+			x.MetaSignature = nil
+		}
+	case "no_origin_sig":
+		if v != nil {
+			x := v
+			for k := g.n(3); k > 0 && x.Origin != nil; k-- {
+				x = x.Origin
+			}
+			x.OriginSignature = nil
+		}
+	case "reorder_layers":
+		if v != nil && v.Origin != nil {
+			o := v.Origin
+			v.Origin, o.Origin = o.Origin, v
+			req.VerifyHeader = o
+		}
+	case "extra_body_sig":
+		if v != nil && v.Origin != nil && v.BodySignature == nil {
+			for x := v; x != nil; x = x.Origin {
+				if x.BodySignature != nil {
+					v.BodySignature = proto.Clone(x.BodySignature).(*refs.Signature)
+				}
+			}
+		}
+	case "wire_byte":
+		fresh := new(protoobject.DeleteRequest)
+		b, err := proto.Marshal(req)
+		if err != nil || len(b) == 0 {
+			return nil
+		}
+		b[g.n(len(b))] ^= 1 << uint(g.n(8))
+		if proto.Unmarshal(b, fresh) == nil {
+			return fresh
+		}
+		return nil
+	case "no_vh":
+		req.VerifyHeader = nil
+	case "body_nil":
+		req.Body = nil
+	}
+	return req
+}
+
+func requestsMain(args []string) {
+	if len(args) > 0 && args[0] == "consts" {
+		reqConsts()
+		return
+	}
+	n := 1500
+	if thorough() {
+		n = 20000
+	}
+	if len(args) > 0 {
+		n, _ = strconv.Atoi(args[0])
+	}
+	g := &rng{s: seed()*0x1000193 + 33}
+	u := &tuniverse{actors: make([]*actor, 6)}
+	for i := 1; i <= 5; i++ {
+		u.actors[i] = newActor(i)
+	}
+	w := &tworld{n3reg: map[string]bool{}}
+	chain := tChain{w}
+	enc := json.NewEncoder(os.Stdout)
+	addrBytes := func() []byte {
+		b := make([]byte, 32)
+		for i := range b {
+			b[i] = byte(g.next() >> 24)
+		}
+		b[0] |= 1
+		return b
+	}
+	cnrB, objB := addrBytes(), addrBytes()
+
+	for i := 0; i < n; i++ {
+		w.n3reg = map[string]bool{}
+		var c reqCase
+		// API version: current (no chained origin signatures), legacy, or missing
+		var ver *refs.Version
+		switch x := g.n(10); {
+		case x < 4:
+			ver = &refs.Version{Major: 2, Minor: uint32(25 + g.n(2))}
+		case x < 8:
+			ver = &refs.Version{Major: 2, Minor: uint32(pick(g, []int{24, 24, 18, 0}))}
+		case x < 9:
+			ver = &refs.Version{Major: uint32(pick(g, []int{1, 3})), Minor: uint32(g.n(30))}
+		}
+		nl := 1 + g.n(3)
+		ttl := uint32(pick(g, []int{0, 1, 1, 2, 3, 5}))
+		req := &protoobject.DeleteRequest{Body: &protoobject.DeleteRequest_Body{Address: &refs.Address{
+			ContainerId: &refs.ContainerID{Value: slices.Clone(cnrB)}, ObjectId: &refs.ObjectID{Value: slices.Clone(objB)}}}}
+		if g.p(5) {
+			req.Body = nil
+		}
+		req.MetaHeader = &protosession.RequestMetaHeader{Version: ver, Ttl: ttl + uint32(nl) - 1}
+		if g.p(4) {
+			req.MetaHeader = nil
+			nl = 1
+		}
+		c.NLayers = nl
+		for l := 0; l < nl; l++ {
+			if l > 0 {
+				req.MetaHeader = &protosession.RequestMetaHeader{Version: ver, Ttl: req.MetaHeader.Ttl - 1, Origin: req.MetaHeader}
+			}
+			a := pick(g, u.actors[1:])
+			var signer neofscrypto.Signer
+			sc := g.n(8)
+			if sc >= 4 {
+				sc = sc % 3
+			}
+			if sc == 3 {
+				signer = n3signer{w, []byte{0x0c, 0x40, byte(g.n(256))}, []byte{0x0c, 0x21, byte(g.n(256)), byte(l), 0x41}}
+			} else {
+				signer = schemeSigners[sc](a)
+			}
+			c.Schemes = append(c.Schemes, sc)
+			vh, err := neofscrypto.SignRequestWithBuffer(signer, req, nil)
+			if err != nil {
+				panic(err)
+			}
+			req.VerifyHeader = vh
+		}
+		c.Peer = pick(g, []string{"none", "trusted", "trusted", "other_auth", "no_auth"})
+		ctx := peerCtx(c.Peer, u.actors[1])
+		c.Trusted = c.Peer == "trusted"
+		accepted := func(r *protoobject.DeleteRequest) (bool, bool, bool, bool) {
+			e1 := icrypto.VerifyRequestSignatures(r)
+			e2 := icrypto.VerifyRequestSignaturesWithContext(ctx, r)
+			e3 := icrypto.VerifyRequestSignaturesN3(ctx, r, chain)
+			allSig := true
+			for _, e := range []error{e1, e2, e3} {
+				if e != nil {
+					var st apistatus.SignatureVerification
+					if !asStatus(e, &st) {
+						allSig = false
+					}
+				}
+			}
+			return e1 == nil, e2 == nil, e3 == nil, allSig
+		}
+		// the unmutated request first (on the same process state), then its mutation
+		p0, c0, n0, _ := accepted(req)
+		c.Base = p0 && c0 && n0
+		if g.p(60) {
+			c.Mut = pick(g, reqMuts)
+			if req = mutateReq(g, u, req, c.Mut); req == nil {
+				continue
+			}
+		} else if g.p(30) {
+			// exemption candidates: no verification header at all
+			c.Mut = "no_vh"
+			req.VerifyHeader = nil
+		}
+		requestFacts(w, req, &c)
+		c.Plain, c.Ctx, c.N3, c.SigErr = accepted(req)
+		_, key, err := func() (id user.ID, key []byte, err error) {
+			defer func() {
+				if recover() != nil {
+					err = errPanic
+				}
+			}()
+			return icrypto.GetRequestAuthor(req.VerifyHeader)
+		}()
+		c.AuthorErr = err != nil
+		c.AuthorIsKey = err == nil && string(key) == string(req.VerifyHeader.GetBodySignature().GetKey())
+		_ = enc.Encode(c)
+	}
+}
+
+func reqConsts() {
+	// probe from which API version the SDK stops producing / requiring origin signatures
+	a := newActor(1)
+	needs := func(major, minor uint32) bool {
+		req := &protoobject.DeleteRequest{Body: &protoobject.DeleteRequest_Body{}, MetaHeader: &protosession.RequestMetaHeader{Version: &refs.Version{Major: major, Minor: minor}}}
+		vh, _ := neofscrypto.SignRequestWithBuffer(schemeSigners[0](a), req, nil)
+		return vh.OriginSignature != nil
+	}
+	out := map[string]any{"ok": false}
+	for major := uint32(0); major < 6; major++ {
+		first := -1
+		for minor := uint32(0); minor < 200; minor++ {
+			if !needs(major, minor) {
+				first = int(minor)
+				break
+			}
+		}
+		if first > 0 {
+			// all lower majors need it for every minor probed, this major from `first` on never needs it
+			mono := true
+			for minor := uint32(first); minor < 200; minor++ {
+				if needs(major, minor) {
+					mono = false
+				}
+			}
+			out["ver_major"], out["ver_minor_no_origin"], out["ok"] = major, first, mono && !needs(major+1, 0)
+			break
+		}
+		if first == 0 {
+			break
+		}
+	}
+	_ = json.NewEncoder(os.Stdout).Encode(out)
+	_ = util.Uint160{}
+}
